@@ -141,7 +141,7 @@ def _run_vc(task, budget_s, conn):
 
 
 # ------------------------------------------------------------------------------------------------
-def _schedule(jobs, nproc, hard_factor=1.5, is_failure=None):
+def _schedule(jobs, nproc, hard_factor=1.5, is_failure=None, _retry=True):
     """jobs: list of (target, args, budget_s).  Runs each in its own process, at most nproc at a
     time, kills a job that exceeds hard_factor * budget.  Returns results in job order (None = killed)."""
     results = [None] * len(jobs)
@@ -185,6 +185,13 @@ def _schedule(jobs, nproc, hard_factor=1.5, is_failure=None):
             running.pop(i)
         if not done:
             time.sleep(0.02)
+    # a job whose process went away without an answer (killed over budget under heavy load, or died): one more attempt, alone
+    if _retry:
+        lost = [i for i, r in enumerate(results) if r is None]
+        if lost and len(lost) <= 8:
+            again = _schedule([jobs[i] for i in lost], 1, hard_factor=hard_factor, is_failure=None, _retry=False)
+            for i, r in zip(lost, again):
+                results[i] = r
     return results
 
 
